@@ -56,6 +56,8 @@ func C07(c *core.Ctx) {
 	c.Explain = "Decides structural necessary conditions of C07: (R7.1) every return of a cache entry from FindMatchingDataFromCS / findMatchingDataCSPrefix is enter-gated, with polarity, by ¬MustBeFresh ∨ now-before-staleTime of that entry; the exact branch looks up the Interest's own name and prefix matching is reachable only with CanBePrefix and only descends into children of the exact node; (R7.2) InsertData: the miss edge is followed on all paths by AfterInsert then EvictEntries, the hit edge by stores of fresh bytes (a copy) and staleTime and by AfterRefresh; staleTime originates from time.Now() (+ FreshnessPeriod); (R7.3) CsLRU.EvictEntries returns only on the edge asserting queue.Len() ≤ capacity and each iteration erases and unlinks the queue front; exact-match hits call BeforeUse first; the LRU bookkeeping methods move the entry to the back; (R7.5) cache admit/serve switches gate InsertData and the lookup. Not decided: LRU order over histories, byte identity of the re-parsed copy, elapsed time."
 	c.RuleText = "instances: Return instructions of the two lookup functions, the two branches of InsertData, the eviction loop, CsLRU methods, the admit/serve call sites. Non-trivial = has a branch edge or path to decide."
 	p := c.P
+	// ---- R7.4 (shared with C17 R17.3)
+	c.Import(C17, "R7.4", "the Content Store capacity set by management is not bounded before the int conversion: a negative capacity makes the eviction loop empty the store and dereference a nil queue front", 1, func(k string) bool { return strings.HasPrefix(k, "R17.3:capacity-upper-bound") })
 	sl := &core.Slicer{P: p}
 
 	isCsEntryLoad := func(v ssa.Value) (ssa.Value, bool) { // node.csEntry
